@@ -131,17 +131,33 @@ def run(db: DB, rep: Report) -> None:
     flagged = [n for n in walk_no_nested(bt.node) if isinstance(n, ast.Call) and isinstance(n.func, ast.Attribute)
                and n.func.attr == "set_is_output" and n.args and isinstance(n.args[0], ast.Constant)
                and n.args[0].value is True]
-    ok = first and bool(apps) and len(flagged) == 1 and isinstance(apps[0].args[0], ast.Name) and \
-        norm(flagged[0].func.value) == apps[0].args[0].id and not paths.guards(apps[0], stop=bt.node) and \
-        not any(isinstance(p, (ast.For, ast.While)) for p in _parents(apps[0], bt.node))
-    # and that tensor comes from the 'output' parse tree
-    if ok:
-        src = paths.flow_text(apps[0].args[0], apps[0], bt.node)
-        ok = "find_data('output')" in src
+    # the first element of es_tensors: first element of the list literal it is
+    # assigned, or - when that is empty - the argument of the first append
+    inits = [n for n in walk_no_nested(bt.node) if isinstance(n, (ast.Assign, ast.AnnAssign)) and
+             norm(n.targets[0] if isinstance(n, ast.Assign) else n.target) == "self.es_tensors"]
+    first_at: Optional[ast.AST] = None
+    first_el: Optional[ast.AST] = None
+    shape = len(inits) == 1 and isinstance(inits[0].value, ast.List) and len(flagged) == 1 and \
+        len(r) == 1
+    if shape:
+        if inits[0].value.elts:
+            first_at, first_el = inits[0], inits[0].value.elts[0]
+        elif apps:
+            first_at, first_el = apps[0], apps[0].args[0]
+        shape = first_el is not None and isinstance(first_el, ast.Name)
+    ok = False
+    if shape:
+        ok = first and norm(flagged[0].func.value) == first_el.id and \
+            not paths.guards(first_at, stop=bt.node) and \
+            not any(isinstance(p, (ast.For, ast.While)) for p in _parents(first_at, bt.node))
+        # and that tensor comes from the 'output' parse tree
+        if ok:
+            src = paths.flow_text(first_el, first_at, bt.node)
+            ok = "find_data('output')" in src
     rep.check("W0", ok, db.loc(go.node), go.short, "get_output:flagged-tensor",
               "get_output() returns the tensor of the 'output' tree, flagged by set_is_output(True)",
               "Equation.get_output() no longer returns the tensor that __build_tensors_trees flags as "
-              "the output (first element of es_tensors, from the 'output' parse tree)")
+              "the output (first element of es_tensors, from the 'output' parse tree)", decided=shape)
     # set_is_output(True) appears nowhere else except restoring saved flags
     others = []
     for f in db.functions.values():
@@ -182,8 +198,10 @@ def run(db: DB, rep: Report) -> None:
                 rep.check("W3", f.module.name == "teaal.trans.equation", db.loc(n), f.short,
                           "OLtLt@" + f.short, "populate operator constructed in %s" % f.module.name,
                           "a populate ('<<') is constructed outside teaal/trans/equation.py (%s)" % f.short)
-                target = n.args[0]
+                target = paths.resolve_flow(n.args[0], n, f.node, depth=1)
                 ok, why = False, "unrecognised construct"
+                recognised = isinstance(target, ast.Call) and norm(target.func) in ("AVar", "EVar") and \
+                    bool(target.args)
                 if ctor == "SIAssign":
                     if isinstance(target, ast.Call) and norm(target.func) == "AVar" and target.args:
                         ok, why = name_from_output(target.args[0], n, f)
@@ -194,7 +212,7 @@ def run(db: DB, rep: Report) -> None:
                 rep.check("W1", ok, db.loc(n), f.short, "populate:" + norm(target)[:60],
                           "'<<' target %s: %s" % (norm(target)[:50], why),
                           "the left side of an emitted populate ('<<') is %s: %s; an input tensor could "
-                          "be written" % (norm(target)[:60], why))
+                          "be written" % (norm(target)[:60], why), decided=recognised)
             elif ctor == "SIAssign" and len(n.args) == 3:
                 tgt = paths.resolve_flow(n.args[0], n, f.node, depth=1)
                 if isinstance(tgt, ast.Call) and norm(tgt.func) == "AVar":
@@ -245,6 +263,12 @@ def run(db: DB, rep: Report) -> None:
                         g = [(norm(a), p) for t, pol in paths.guards(st, stop=f.node)
                              for a, p in paths.conjuncts(t, pol)]
                         sel.append(any(x.endswith(".get_is_output()") and p for x, p in g))
+                    elif isinstance(val, ast.IfExp):
+                        # "ref" if <T>.get_is_output() else "plain"
+                        for branch, pol in ((val.body, True), (val.orelse, False)):
+                            if isinstance(branch, ast.Constant) and branch.value in REF_API:
+                                g = [(norm(a), p) for a, p in paths.conjuncts(val.test, pol)]
+                                sel.append(any(x.endswith(".get_is_output()") and p for x, p in g))
                 # and the receiver's tensor is the one tested
                 ok = bool(sel) and all(sel)
                 why = "method name selected under get_is_output()" if ok else \
@@ -255,8 +279,7 @@ def run(db: DB, rep: Report) -> None:
     for api in sorted(REF_API - seen_api):
         raise AnalysisError("reference API %s is no longer emitted anywhere (anchor vanished)" % api)
     fn = db.func("teaal.ir.tensor.Tensor.fiber_name")
-    refs = [n for n in walk_no_nested(fn.node) if isinstance(n, ast.Return) and
-            any(isinstance(x, ast.Constant) and x.value == "ref" for x in ast.walk(n))]
+    refs = [n for n in walk_no_nested(fn.node) if isinstance(n, ast.Constant) and n.value in ("ref", "_ref")]
     ok = bool(refs)
     for r in refs:
         g = [(norm(a), p) for t, pol in paths.guards(r, stop=fn.node) for a, p in paths.conjuncts(t, pol)]
@@ -283,8 +306,19 @@ def _restore_rules(db: DB, rep: Report, hm) -> None:
     outs = paths.path_counts(mf.node.body, paths.make_pred(is_unpart))
     calls = [n for n in walk_no_nested(mf.node) if is_unpart(n)]
     arg_ok = bool(calls) and all(c.args and output_tensor_expr(c.args[0], c, mf)[0] for c in calls)
-    added = all(isinstance(c.parent, ast.Call) and isinstance(c.parent.func, ast.Attribute) and
-                c.parent.func.attr == "add" for c in calls)
+    def reaches_add(c) -> bool:
+        if isinstance(c.parent, ast.Call) and isinstance(c.parent.func, ast.Attribute) and \
+                c.parent.func.attr == "add":
+            return True
+        if isinstance(c.parent, ast.Assign) and isinstance(c.parent.targets[0], ast.Name):
+            nm = c.parent.targets[0].id
+            return any(isinstance(x, ast.Call) and isinstance(x.func, ast.Attribute) and x.func.attr == "add"
+                       and any(isinstance(a, ast.Name) and a.id == nm for a in x.args)
+                       for x in walk_no_nested(mf.node))
+        if isinstance(c.parent, ast.Return):
+            return True
+        return False
+    added = all(reaches_add(c) for c in calls)
     rep.check("W5", all(cnt == 1 for cnt, k in outs if k != paths.RAISE) and arg_ok and added,
               db.loc(mf.node), mf.short, "footer:unpartition",
               "make_footer adds partitioner.unpartition(<output>) exactly once on every path",
